@@ -1,6 +1,7 @@
 package props
 
 import (
+	"bytes"
 	"fmt"
 	"strings"
 
@@ -38,6 +39,11 @@ func (c13) Gen(tier string, seed int64) []fw.Unit {
 		return u.Tag == "boundary" || u.Tag == "at-capacity" || u.Tag == "special" || (u.Tag == "random" && len(u.S) < 400)
 	})
 	take(c02{}.Gen(tier, seed+2000), func(u fw.Unit) bool { return true })
+	plim := 250
+	if tier == "thorough" {
+		plim = 0
+	}
+	us = append(us, qrPairUnits(rngFor(seed, "C13pairs"), "qrpair:min", plim)...)
 	take(c04{}.Gen(tier, seed+2000), func(u fw.Unit) bool {
 		return u.Tag == "length-sweep" || u.Tag == "special" || u.Tag == "digits" || u.Tag == "bytes"
 	})
@@ -68,6 +74,23 @@ func (c13) Gen(tier string, seed int64) []fw.Unit {
 	for _, q := range azBoundaryReqs(r, tier == "thorough", true) {
 		us = append(us, q.Unit("min", "aztec/capacity-boundary"))
 	}
+	// exact fits: data bits + check bits fill a size exactly and nothing is stuffed
+	for _, sz := range [][2]int{{1, 1}, {1, 2}, {1, 3}, {1, 4}, {0, 4}, {0, 5}, {0, 6}, {0, 8}, {0, 10}, {0, 13}, {0, 15}, {0, 18}, {0, 22}, {0, 23}, {0, 27}, {0, 32}} {
+		T := refdec.AztecTotalBits(sz[0] == 1, sz[1])
+		step := 1
+		if tier != "thorough" {
+			step = 7
+		}
+		for pct := int(seed % int64(step)); pct < 100; pct += step {
+			guess := int(float64(T-11) / (5 * (1 + float64(pct)/100)))
+			for n := guess - 2; n <= guess+2; n++ {
+				if n >= 1 && 5*n+5*n*pct/100+11 == T {
+					us = append(us, Req{Fam: "aztec", S: bytes.Repeat([]byte("A"), n), I: []int64{int64(pct), 0}, Scheme: -1}.Unit("min", "aztec/exact-fit"))
+					us = append(us, Req{Fam: "aztec", S: randBytes(r, n, []byte("BCDEFGHIJKLMNOPQRSTUVWXY")), I: []int64{int64(pct), 0}, Scheme: -1}.Unit("min", "aztec/exact-fit"))
+				}
+			}
+		}
+	}
 	nt := 60
 	if tier == "thorough" {
 		nt = 400
@@ -83,7 +106,16 @@ func (c13) Gen(tier string, seed int64) []fw.Unit {
 }
 
 func (p c13) Exec(c *fw.Ctx, u *fw.Unit) {
-	req := reqOfUnit(u)
+	if u.Fn == "qrpair:min" {
+		for _, q := range qrPairReqs(u) {
+			p.one(c, q, u.Tag)
+		}
+		return
+	}
+	p.one(c, reqOfUnit(u), u.Tag)
+}
+
+func (p c13) one(c *fw.Ctx, req Req, tag string) {
 	c.Eval()
 	inner := req.String()
 	switch req.Fam {
@@ -193,7 +225,7 @@ func (p c13) Exec(c *fw.Ctx, u *fw.Unit) {
 		return
 	}
 	c.Nontrivial(req.Key())
-	c.Cover("tag", u.Tag)
+	c.Cover("tag", tag)
 	if c.Rand().Intn(80) == 0 {
 		c.Sample(map[string]any{"request": req.String()})
 	}
